@@ -30,7 +30,10 @@ RULE = ('a case is one schedule: a workload (1-3 webhook threads x 1-2 events '
         'same case iff workload and (thread, code, line) sequence are equal '
         '(hash).  Non-trivial = some other thread executed at least one '
         'instrumented line between the entry and the exit of some put_job '
-        'call, or a request was suppressed or refused')
+        'call, or a request was suppressed or refused.  Complement (counted '
+        'in the evaluations, never as distinct cases): a few hundred rounds '
+        'of the same workloads with uncontrolled real threads and the real '
+        'blocking Queue.get()')
 ASSUMPTIONS = [
     'queue.Queue is trusted and not instrumented; its blocking get() is '
     'modelled by "not eligible until the queue is non-empty, then '
@@ -48,17 +51,28 @@ ASSUMPTIONS = [
     'counted and reported, outside the statement',
     'job.details and the value returned by the handler are not asserted '
     '(statement silent)',
+    'oracle: (1) every accepted event has a dequeue of a job on the same key '
+    '(the harness\'s own key, not bert_e\'s __eq__) with a larger sequence '
+    'number than its accept mark; (2) a suppressed event had an equal job '
+    'waiting at some moment of its put_job call; (3) after every '
+    'process_task: job at the head of tasks_done, done, end time, status = '
+    'name of the raised class, marker cleared; (4) at quiescence: worker '
+    'alive, queue empty, no marker, every dequeued job finished',
+    'a schedule that ends by the wall-clock watchdog, the step limit or a '
+    'harness error is inconclusive, never a violation',
 ]
-MIN_NONTRIVIAL = 1500
+MIN_NONTRIVIAL = 20000
 REQUIRED_COUNTERS = {
-    'accepted_checked': 3000,          # the deciding comparison ran
-    'suppressed_while_equal_pending': 50,
-    'finished_jobs_checked': 3000,
-    'accept_while_equal_running': 50,  # the dangerous window was entered
-    'accept_after_equal_done': 50,
-    'outcome_silent': 100, 'outcome_template': 100,
-    'outcome_internal': 100, 'outcome_exception': 100,
-    'quiescence_checked': 1000,
+    'accepted_checked': 50000,         # the deciding comparison ran
+    'suppressed_while_equal_pending': 10000,
+    'finished_jobs_checked': 50000,
+    'accept_while_equal_running': 5000,    # the dangerous windows were entered
+    'accept_after_equal_done': 5000,
+    'outcome_silent': 5000, 'outcome_template': 5000,
+    'outcome_internal': 5000, 'outcome_exception': 5000,
+    'quiescence_checked': 20000,
+    'schedules_enumerated': 20000, 'schedules_random': 10000,
+    'schedules_free_running': 100,
 }
 SHARD_TIMEOUT = {'quick': 600, 'thorough': 2400}
 
@@ -66,6 +80,7 @@ KEYS = (('pr', 1), ('pr', 2), ('commit', 'a' * 40), ('commit', 'b' * 40))
 KEY_PAIRS = ((0, 2), (0, 1), (2, 3), (1, 3), (2, 0), (3, 1))
 OUTCOMES = ('silent', 'template', 'internal', 'exception')
 WATCHDOG_S = 30.0
+FREE_WATCHDOG_S = 10.0
 
 
 # ---------------------------------------------------------------------------
@@ -342,16 +357,15 @@ class FreeRun(Run):
             for h in hooks:
                 h.start()
             for h in hooks:
-                h.join(WATCHDOG_S)
+                h.join(FREE_WATCHDOG_S)
                 if h.is_alive():
                     outcome = 'watchdog'
             # quiescence: every queued job done (Queue.join without timeout
             # would hang the harness if the worker died)
-            t_end = time.time() + WATCHDOG_S
+            t_end = time.time() + FREE_WATCHDOG_S
             while outcome == 'quiescent' and worker.is_alive() and \
-                    (b.task_queue.unfinished_tasks or 'current job' in b.status
-                     or self.finished < sum(
-                         1 for e in self.mon.log if e['kind'] == 'deq')):
+                    (len(b.task_queue.queue) or self.finished < sum(
+                        1 for e in list(self.mon.log) if e['kind'] == 'deq')):
                 if time.time() > t_end:
                     outcome = 'watchdog'
                 time.sleep(0.0002)
@@ -372,7 +386,7 @@ class FreeRun(Run):
                 stop = env.make_job(b, 0, None, 'stop')
                 stop.vf_key = None         # never counts as an evaluation
                 b.task_queue.put(stop)
-                worker.join(WATCHDOG_S)
+                worker.join(FREE_WATCHDOG_S)
                 if worker.is_alive():
                     self.sched.problems.append('free-running worker did not '
                                                'stop')
@@ -461,6 +475,8 @@ def judge(run):
                    'equal-job-done' if done else 'no-equal-job')
             if own:
                 why = 'own-job-never-dequeued'
+            if run.worker_died is not None:
+                why = 'worker-dead'
             viol.append((
                 'accepted-event-not-evaluated-afterwards:' + why,
                 'event %s on key %s: put_job returned normally (accept mark '
@@ -676,6 +692,7 @@ def run_shard(spec, acc):
     t0 = time.time()
     budget = SHARD_TIMEOUT[tier] * 0.8
     bad = [0]
+    bad_dfs = [False]
 
     # -- bounded-preemption enumeration ----------------------------------------
     for (nt, ne, bound, pair) in dfs_items(tier):
@@ -696,12 +713,13 @@ def run_shard(spec, acc):
                     res = run_one(env, cfg, strat, acc, 'x', count=False)
                 if res is None:
                     bad[0] += 1
+                    bad_dfs[0] = True      # this subtree is not explored
                     return []
                 if strat.diverged:
                     acc.inconc('replay of a choice prefix diverged')
                 return res[0].sched.decisions
             runs, ok = S.dfs(one, bound, shard, n)
-            complete = complete and ok
+            complete = complete and ok and not bad_dfs[0]
         acc.exhaustive[name] = complete
         if not complete:
             acc.inconc('enumeration %s stopped by the time budget' % name)
@@ -725,7 +743,7 @@ def run_shard(spec, acc):
         rng = random.Random('c13-free-%d-%d' % (seed, i))
         cfg = random_cfg(rng)
         if run_one(env, cfg, rng.random(), acc, 'free_running') is None:
-            bad[0] += 1
+            bad[0] += 7
     acc.count('shards_run')
 
 
